@@ -190,6 +190,7 @@ _PICKLE_HOSTILE = [
     b"\x80\x04\x95\x10\x00\x00\x00\x00\x00\x00\x00N.",  # FRAME longer than its content
     b"\x80\x05\x8e\xff\xff\xff\xff\xff\xff\xff\x00abc.",  # BINBYTES8 huge
     b"\x80\x02\x8b\xff\xff\xff\x7fab.",  # LONG4 huge
+    b"\x80\x05\x96\x00\x00\x00\x00\x10\x00\x00\x00.",  # BYTEARRAY8 of 64 GiB (refused by the restricted unpickler, see matrix.py)
     b"\x80\xff.",  # unsupported protocol
     b"\x80\x04r\xff\xff\xff\x0f.",  # LONG_BINPUT with a huge memo index on an empty stack
     b"\x80\x04Nr\xff\xff\xff\x0f.",  # ... on a non-empty stack
@@ -489,7 +490,7 @@ def random_bytes(world: World, entry: M.Entry, limit: int, mode: str) -> bytes:
 # ------------------------------------------------------------------------------------------------ input builder
 def build_input(world: World, entry: M.Entry, limit: int, mode: str) -> tuple[bytes, list[int], int, str]:
     """-> (bytes on the wire, frame boundaries of the uncorrupted stream, limit to configure, description)."""
-    kind = world.pick("input_kind", ["traffic", "traffic", "crafted", "extreme", "random"])
+    kind = world.pick("input_kind", ["traffic", "traffic", "traffic", "crafted", "extreme", "random"])
     if kind == "random":
         world.fault("splice")  # foreign bytes on the wire
         return random_bytes(world, entry, limit, mode), [], limit, "random"
